@@ -52,7 +52,8 @@ def getFramesTable (j : Json) : R (Nat → Nat → Field3) := do
   let t ← getList (getList getF3') j
   pure (fun f i => ((t[f]?).bind (·[i]?)).getD [])
 
-def opRun (j : Json) : R Json := do
+/-- the request of a whole run as a `Sim` -/
+def parseSim (j : Json) : R Sim := do
   -- time
   let tj ← fld j "time"
   let start ← getInt (← fld tj "start")
@@ -128,7 +129,11 @@ def opRun (j : Json) : R Json := do
     outIv := ← getList (fun x => x.getStr?) (← fld oj "ivars"),
     outPv := ← getList (fun x => x.getStr?) (← fld oj "pvars"),
     warm := warm }
-  match sim.run quantize with
+  pure sim
+
+/-- the result of a run as JSON -/
+def simOut (r : Except Refusal SimResult) : R Json :=
+  match r with
   | .error e => pure (errJ e)
   | .ok res =>
   let final := res.final
@@ -147,5 +152,9 @@ def opRun (j : Json) : R Json := do
     ("final", listJ rpJ final.parts), ("npid", natJ final.npid),
     ("log", listJ (fun (c : Int × Call) => Json.arr #[intJ c.1, .str (callName c.2)]) final.log),
     ("files", filesJ)])
+
+def opRun (j : Json) : R Json := do
+  let sim ← parseSim j
+  simOut (sim.run quantize)
 
 end Drv
